@@ -16,6 +16,7 @@ structure St where
   evicted : List Nat := []                 -- torrents whose blob was evicted since it last became complete (impl obs)
   staleW : List Nat := []                  -- split requests created while the impl reported the blob cached
   implCa : String := ""                    -- the implementation's last `ca=` flags
+  parked : List Nat := []                  -- torrents with a piece writer parked before the commit (impl obs)
 
 def ntor : Nat := 2
 
@@ -96,7 +97,15 @@ def step (s : St) (kind : String) (args impl : List String) : Option (St × Step
         ((List.range s.nreq).filter fun w => s.sentCount w = 0).map fun w =>
           s!"side=impl key=waiter-unanswered-at-rest w{w} has no result although the scheduler is at rest"
       else []
-    some ({ s with implCa := g "ca" }, { obs := stObs s.m, branch := if rest then "st.rest" else "st.busy", propfails := pf })
+    -- the completion notice of a dispatcher is enabled only by the commit of its blob: a notice in flight for the
+    -- dispatcher of a control the implementation itself reports as not complete (`hN=gK:c0:…`, `n=…hNgK…`)
+    let early := (List.range ntor).filterMap fun h =>
+      match (g s!"h{h}").splitOn ":" with
+      | gt :: "c0" :: _ => if (list? (g "n")).contains s!"h{h}{gt}" then
+          some s!"side=impl key=completion-notice-before-commit h{h}: the completion notice of dispatcher {gt} is in flight while the torrent is not complete (blob not committed to the cache)"
+        else none
+      | _ => none
+    some ({ s with implCa := g "ca" }, { obs := stObs s.m, branch := if rest then "st.rest" else "st.busy", propfails := pf ++ early })
   else if kind = "fin" then
     let ans := (List.range s.m.nextW).map fun w => s!"w{w}:{(s.m.results w).length}"
     some (s, { obs := ["answered=" ++ listTok ans], branch := "fin", propfails := monitorFin impl })
@@ -110,7 +119,7 @@ def step (s : St) (kind : String) (args impl : List String) : Option (St × Step
           let wasCached := (s.implCa.toList.getD h '0') = '1'
           { s with wtor := (s.nreq, h) :: s.wtor, staleW := if rq = "creq" ∧ wasCached then s.nreq :: s.staleW else s.staleW }
         else if rq = "evict" ∧ impl.head? = some "evicted" then { s with evicted := h :: s.evicted }
-        else if rq = "finish" ∧ impl.head? = some "ok" then { s with evicted := s.evicted.filter (· ≠ h) }
+        else if (rq = "finish" ∨ rq = "rfinish") ∧ impl.head? = some "ok" then { s with evicted := s.evicted.filter (· ≠ h) }
         else s
       | none => s
     | _ => s
@@ -180,6 +189,23 @@ def step (s : St) (kind : String) (args impl : List String) : Option (St × Step
     let h ← hash? ht
     if s.m.stopped then fin s.m ["stopped"] "inc.stopped" else
     fin (KrakenModel.SchedWaiters.step true s.m (.incoming h)) ["active"] (if (s.m.ctrl h).isSome then "inc.existing" else "inc.add")
+  | ["pfinish", ht] => do
+    -- the last two pieces are being written concurrently, one writer parked before it counts its piece: nothing is
+    -- committed, so nothing changes in the model (whether the writer could be parked is the implementation's report)
+    let h ← hash? ht
+    let tok := impl.headD "none"
+    let s := if tok = "parked" then { s with parked := h :: s.parked } else s
+    some (s, { obs := [tok, sendsTok s.m s.m], branch := "pfinish." ++ tok, propfails := pfs })
+  | ["rfinish", ht] => do
+    -- the parked writer goes on and commits: this is the model's `finish`
+    let h ← hash? ht
+    if h ∉ s.parked then some (s, { obs := ["none", sendsTok s.m s.m], branch := "rfinish.none", propfails := pfs }) else
+    let s := { s with parked := s.parked.filter (· ≠ h) }
+    let r := match s.m.ctrl h with
+      | some c => if c.complete then "dup" else if !s.m.dl h then "invalid" else "ok"
+      | none => "absent"
+    some ({ s with m := KrakenModel.SchedWaiters.step true s.m (.finish h) },
+          { obs := [r, sendsTok s.m (KrakenModel.SchedWaiters.step true s.m (.finish h))], branch := "rfinish." ++ r, propfails := pfs })
   | ["finish", ht] => do
     let h ← hash? ht
     let r := match s.m.ctrl h with
